@@ -11,6 +11,7 @@ Local Open Scope Z_scope.
 Section Progress.
 Variable F : Type.
 Variable flt : F -> F -> bool.
+Variable ops : stat_ops.
 
 Notation ind := (ind F).
 Notation layer := (layer F).
@@ -280,7 +281,7 @@ Theorem step_progress_std : forall e (s : state) ti rs k o,
   (forall r1 x1 x2 parents, tournament_select flt e (pop s) (O, ti) rs = Some parents ->
      hd_error parents = Some r1 -> get (pop s) r1 = Some x1 -> get (pop s) (second parents r1) = Some x2 ->
      base_offspring_ok e x1 x2 k o) ->
-  exists s', step_ok flt e s (EStep (SelTournament (O, ti) rs) (RecBase k) o []) = Some s'.
+  exists s', step_ok flt ops e s (EStep (SelTournament (O, ti) rs) (RecBase k) o []) = Some s'.
 Proof.
   intros e s ti rs k o Hst Ht HI Hti Hlen Hd Hoff.
   assert (Ha : is_alps e = false) by (unfold is_alps; rewrite Hst; reflexivity).
@@ -305,7 +306,7 @@ Theorem step_progress_de : forall e (s : state) (cs : list coord) va vb,
   ring_draw_ok (e_mate_zone e) (Z.of_nat (e_individuals e)) va = true ->
   ring_draw_ok (e_mate_zone e) (Z.of_nat (e_individuals e)) vb = true ->
   exists a_age, forall o : ind, age o = a_age ->
-    exists s', step_ok flt e s (EStep (SelRandom cs) (RecDe va vb) o []) = Some s'.
+    exists s', step_ok flt ops e s (EStep (SelRandom cs) (RecDe va vb) o []) = Some s'.
 Proof.
   intros e s cs va vb Hst Ht HI Hlen Hc Da Db.
   assert (Ha : is_alps e = false) by (unfold is_alps; rewrite Hst; reflexivity).
@@ -329,8 +330,8 @@ Proof.
 Qed.
 
 (* generation end under std / DE: always accepted *)
-Theorem aftergen_progress_std_de : forall e (s : state), is_alps e = false ->
-  exists s', step_ok flt e s (EAfterGen (mkAg [] [] (AgNone F))) = Some s'.
-Proof. intros e s Ha. cbn [step_ok]. rewrite Ha. cbn. eauto. Qed.
+Theorem aftergen_progress_std_de : forall e (s : state) a, is_alps e = false ->
+  exists s', step_ok flt ops e s (EAfterGen a) = Some s'.
+Proof. intros e s a Ha. cbn [step_ok]. rewrite Ha. eauto. Qed.
 
 End Progress.
